@@ -11,7 +11,7 @@
 //   bincopy A B          phreeqc2cxxStorageBin(A) ; cxxStorageBin2phreeqc(B)          -> "ok"
 //   bincopyn A B n       the same for one user number                                  -> "ok"
 //   sercopy A B lo hi    Serializer::Serialize(A, lo..hi, T and P included) ; Deserialize into B -> "ok <nints> <ndoubles>"
-//   icopy A B            B's engine := A's engine (Phreeqc::operator= -> InternalCopy)   -> "ok"
+//   icopyraw A           Phreeqc copy(*engine of A) (copy constructor -> InternalCopy); dump_raw of the copy -> "raw <hex>"
 //   find T <hexitem> <0|1>   CParser::find_option(item, real vopts of table T, exact)        -> "I <n>"
 //   vopts T                  the real option vector                                            -> "V <hex> ..."
 #ifndef CPPUNIT
@@ -50,10 +50,15 @@ class TestIPhreeqc {
 public:
   static Phreeqc* engine(IPhreeqc* p) { return p->PhreeqcPtr; }
   template <class T> static void dumpmap(std::ostringstream& o, std::map<int, T>& m) {
-    for (typename std::map<int, T>::iterator it = m.begin(); it != m.end(); ++it) it->second.dump_raw(o, 0);
+    for (typename std::map<int, T>::iterator it = m.begin(); it != m.end(); ++it) { int key = it->first; it->second.dump_raw(o, 0, &key); }
   }
-  static std::string rawall(IPhreeqc* p) {
-    Phreeqc* e = p->PhreeqcPtr;
+  static std::string rawall(IPhreeqc* p) { return rawall_engine(p->PhreeqcPtr); }
+  // Phreeqc copy constructor (→ InternalCopy) into a stand-alone engine; dump_raw text of the copy
+  static std::string icopyraw(IPhreeqc* p) {
+    Phreeqc cp(*p->PhreeqcPtr);
+    return rawall_engine(&cp);
+  }
+  static std::string rawall_engine(Phreeqc* e) {
     std::ostringstream o;
     dumpmap(o, e->Rxn_solution_map);
     dumpmap(o, e->Rxn_exchange_map);
@@ -90,7 +95,6 @@ public:
     r.Deserialize(*b->PhreeqcPtr, d, ints, dbl);
     return std::make_pair(ints.size(), dbl.size());
   }
-  static void icopy(IPhreeqc* a, IPhreeqc* b) { *b->PhreeqcPtr = *a->PhreeqcPtr; }
 };
 
 // the real option vectors (protected static members) through a derived accessor
@@ -186,8 +190,12 @@ int main() {
       std::cout << "\n";
     }
     else if (op == "rawall") std::cout << "raw " << hx::hex(TestIPhreeqc::rawall(a)) << "\n";
-    else if ((op == "bincopy" || op == "icopy") && w.size() == 3 && inst.count(w[2])) {
-      if (op == "bincopy") TestIPhreeqc::bincopy(a, inst[w[2]]); else TestIPhreeqc::icopy(a, inst[w[2]]);
+    else if (op == "icopyraw") {
+      try { std::cout << "raw " << hx::hex(TestIPhreeqc::icopyraw(a)) << "\n"; }
+      catch (...) { std::cout << "exc copy-constructor-threw\n"; }
+    }
+    else if (op == "bincopy" && w.size() == 3 && inst.count(w[2])) {
+      TestIPhreeqc::bincopy(a, inst[w[2]]);
       std::cout << "ok\n";
     }
     else if (op == "bincopyn" && w.size() == 4 && inst.count(w[2])) {
